@@ -17,7 +17,8 @@ HASH_PROPS = {
     "C11": (("C11-",), 30, "IsalVerif.Props.C11",
             ["IsalVerif.HashMB.C11_reject", "IsalVerif.HashMB.C11_unchanged", "IsalVerif.HashMB.C11_history",
              "IsalVerif.HashMB.C11_nopoison", "IsalVerif.HashMB.C11_reject_code",
-             "IsalVerif.HashMB.C11_unfixed_poisons"]),
+             "IsalVerif.HashMB.C11_unfixed_poisons", "IsalVerif.HashMB.C11_base_nopoison",
+             "IsalVerif.HashMB.C11_base_reject", "IsalVerif.HashMB.C11_base_unfixed_poisons"]),
     "C01": (("C01-",), 0, "IsalVerif.Props.C01",
             ["IsalVerif.HashMB.C01", "IsalVerif.HashMB.C01_reuse", "IsalVerif.HashMB.C01_append",
              "IsalVerif.HashMB.C01_segmentation", "IsalVerif.HashMB.C01_is_standard",
